@@ -2,6 +2,7 @@
 from __future__ import annotations
 
 import asyncio
+import collections.abc
 import copy
 import enum
 import itertools
@@ -36,7 +37,11 @@ RULE = ("request sets of 1..4 characteristics over 1..2 aids x permissions {pr+p
         "of unreadable ones, a requested characteristic the accessory was never asked about must still get an error entry; IP: the reply's STATUS LINE varied independently of its "
         "body - every HTTP status {200,204,207,400,404,422,470,500,503} x body shape {none, {}, full list, failures only, request-wide status, request-wide status + partial list} "
         "x accept/reject vector an honest accessory can produce, for write/read/subscribe/unsubscribe/identify(), a refusal the body tells is never presented as done whatever the "
-        "status line says. non-trivial = distinct (path, status vector, shape)")
+        "status line says; EVERY KIND OF ITERABLE the entry points' annotation allows (list, tuple, set, frozenset, dict keys view, generator expression, map, zip, iter(), a caller's "
+        "own one-pass Iterable, a caller's own re-iterable Sequence) handed to every public read / write / subscribe / unsubscribe entry point of every transport, each crossed with "
+        "the reply shapes above (per-item statuses in every accessory style; IP: status line x body shape incl. request-wide status with a partial / absent list; one or two "
+        "accessories; the stubbed IP read / write streams re-run their replies - malformed, duplicated, id-less entries included - under every kind), judged against the list the "
+        "harness itself put into the iterable. non-trivial = distinct (path, status vector, shape, kind of iterable)")
 TRUSTED = ["aiohomekit.model (Accessories/Characteristic.perms) as the source of permissions", "json for the line protocol"]
 ASSUMPTIONS = ["reply JSON is an object; ids and statuses are integers (domain of the model)",
                "BLE (stub stream): the GATT request layer is replaced by a stub that raises PDUStatusError for a rejected write (C17 covers the PDU layer)",
@@ -45,6 +50,9 @@ ASSUMPTIONS = ["reply JSON is an object; ids and statuses are integers (domain o
                "IP replies worded freely (status line varied independently of the body): the accessory is honest - what it accepted / refused is what its log says and, where the "
                "reply has a body, what the body says; the call may FAIL on a reply whose status line and body contradict each other; a refusal that no body tells (no body, {}, "
                "bytes after a 204 status line), a request-wide status or a 4xx status line in the reply to a SUBSCRIPTION request are noted in the evidence, not judged",
+               "iterables: entry points of the unchanged library that walk / index their argument more than once (CoAP get / put / unsubscribe) FAIL when handed an iterable that "
+               "does not survive that (one-pass; for put / unsubscribe also set-like): that failure (and the listeners not being told by a failed call) is counted and noted in the "
+               "evidence with an input, not judged; every other clause is judged there too, and every other (entry point, kind of iterable) is judged in full",
                "BLE reads: a characteristic the accessory refused to read is left out of the result by the unchanged library (open known finding ble-e2e/read-refused-item-omitted); it must never be given a value"]
 EXPLANATION = "Lean theorems C13_* over models of format_characteristic_list / to_status_code / put paths (status table regenerated from source); differential tie on the public pairing methods"
 
@@ -105,6 +113,63 @@ async def _noop(*a, **k):
     return None
 
 
+# ---------------------------------------------------------------------------------------------------------------------
+# The read / write / subscribe entry points take an Iterable (that is their annotation): every kind of iterable a caller
+# may hand in.  The harness builds the iterable from ITS OWN list of rows, so it always knows what the caller named.
+# ---------------------------------------------------------------------------------------------------------------------
+class OnePass(collections.abc.Iterable):
+    """a caller's own Iterable that can be walked ONCE (a cursor over a query result): every __iter__ hands out the same underlying iterator"""
+
+    def __init__(self, rows):
+        self._it = iter(list(rows))
+
+    def __iter__(self):
+        return self._it
+
+
+class Rows(collections.abc.Sequence):
+    """a caller's own re-iterable, indexable Sequence that is not a list / tuple"""
+
+    def __init__(self, rows):
+        self._rows = list(rows)
+
+    def __getitem__(self, i):
+        return self._rows[i]
+
+    def __len__(self):
+        return len(self._rows)
+
+
+ITER_KINDS = ["list", "tuple", "set", "frozenset", "keys", "gen", "map", "zip", "iter", "onepass", "seq"]
+ONE_PASS = frozenset(["gen", "map", "zip", "iter", "onepass"])  # a second walk over these is empty
+NOT_INDEXABLE = frozenset(["set", "frozenset", "keys"]) | ONE_PASS  # x[i] is a TypeError on these
+
+
+def make_iterable(kind, rows):
+    rows = [tuple(r) for r in rows]
+    if kind == "tuple":
+        return tuple(rows)
+    if kind == "set":
+        return set(rows)
+    if kind == "frozenset":
+        return frozenset(rows)
+    if kind == "keys":
+        return dict.fromkeys(rows).keys()
+    if kind == "gen":
+        return (r for r in rows)
+    if kind == "map":
+        return map(tuple, [list(r) for r in rows])
+    if kind == "zip":
+        return zip(*[[r[j] for r in rows] for j in range(len(rows[0]))]) if rows else zip()
+    if kind == "iter":
+        return iter(rows)
+    if kind == "onepass":
+        return OnePass(rows)
+    if kind == "seq":
+        return Rows(rows)
+    return list(rows)
+
+
 def run(ctx: Ctx, driver: Driver):
     rng = ctx.rng
     loop = asyncio.new_event_loop()
@@ -143,53 +208,76 @@ def gen_requests(rng):
     return sorted(keys)
 
 
+def ipread_call(loop, req, data, as_kind="list"):
+    """IpPairing.get_characteristics(<iterable of kind as_kind over req>) with the accessory's reply being `data` -> result dict (raises what the call raises)"""
+    p = IpPairing.__new__(IpPairing)
+    p._ensure_connected = _noop
+    p._accessories_state = AccessoriesState(build_accessories({tuple(k): "rw" for k in req}), 1, None, 0)
+
+    class Conn:
+        async def get_json(self, url):
+            return copy.deepcopy(data)
+    p.connection = Conn()
+    return loop.run_until_complete(p.get_characteristics(make_iterable(as_kind, req)))
+
+
+def ipread_problems(req, data, r):
+    """the per-characteristic oracle of a read: req = what the CALLER named (the harness's own list), data = the accessory's reply, r = the result"""
+    P = []
+    entries = data.get("characteristics", []) if isinstance(data.get("characteristics", []), list) else []
+    g = data.get("status", 0)
+    for k in req:
+        k = tuple(k)
+        last = None
+        for e in entries:
+            if isinstance(e, dict) and e.get("aid") == k[0] and e.get("iid") == k[1] and "aid" in e and "iid" in e:
+                last = e
+        got = r.get(k)
+        if last is not None:
+            st = last.get("status", 0)
+            if st != 0:
+                ok = got is not None and got.get("status") == st and "description" in got
+            else:
+                ok = got is not None and "status" not in got and got.get("value", None) == last.get("value", None)
+            if not ok:
+                P.append(("ipread/mentioned", f"read result for {k} is {got} but the accessory's last entry for it is {last}"))
+        elif g != 0:
+            if not (got is not None and got.get("status") == g):
+                P.append(("ipread/global", f"request-wide status {g} not applied to unmentioned {k}: {got}"))
+        elif got is not None:
+            P.append(("ipread/invented", f"result {got} invented for unmentioned {k}"))
+    return P
+
+
 def ip_read(ctx, driver, rng, loop):
     cases, outs, lines = [], [], []
+    done = []
 
-    def one(req, data, shape):
-        p = IpPairing.__new__(IpPairing)
-        p._ensure_connected = _noop
-        p._accessories_state = AccessoriesState(build_accessories({k: "rw" for k in req}), 1, None, 0)
-
-        class Conn:
-            async def get_json(self, url):
-                return copy.deepcopy(data)
-        p.connection = Conn()
+    def one(req, data, shape, as_kind="list"):
         ctx.evaluations += 1
         case = {"stream": "ipread", "requested": req, "reply": data}
+        how = ""
+        if as_kind != "list":
+            case["as"] = as_kind
+            how = f" [requested characteristics handed in as a {as_kind}]"
         try:
-            r = loop.run_until_complete(p.get_characteristics(req))
+            r = ipread_call(loop, req, data, as_kind)
         except Exception as e:  # noqa: BLE001
-            ctx.violation("ipread/" + type(e).__name__, f"get_characteristics raised {type(e).__name__} on reply {J(data)[:200]}", case)
+            ctx.violation("ipread/" + type(e).__name__, f"get_characteristics raised {type(e).__name__} on reply {J(data)[:200]}" + how, case)
             return
         out = canon_result(r)
         # ---- oracle
-        entries = data.get("characteristics", []) if isinstance(data.get("characteristics", []), list) else []
-        g = data.get("status", 0)
-        for k in req:
-            last = None
-            for e in entries:
-                if isinstance(e, dict) and e.get("aid") == k[0] and e.get("iid") == k[1] and "aid" in e and "iid" in e:
-                    last = e
-            got = r.get(k)
-            if last is not None:
-                st = last.get("status", 0)
-                if st != 0:
-                    ok = got is not None and got.get("status") == st and "description" in got
-                else:
-                    ok = got is not None and "status" not in got and got.get("value", None) == last.get("value", None)
-                if not ok:
-                    ctx.violation("ipread/mentioned", f"read result for {k} is {got} but the accessory's last entry for it is {last}", case)
-            elif g != 0:
-                if not (got is not None and got.get("status") == g):
-                    ctx.violation("ipread/global", f"request-wide status {g} not applied to unmentioned {k}: {got}", case)
-            elif got is not None:
-                ctx.violation("ipread/invented", f"result {got} invented for unmentioned {k}", case)
-        ctx.nontrivial.add(("ipread", shape))
+        for sig, what in ipread_problems(req, data, r):
+            ctx.violation(sig, what + how, case)
+        ctx.nontrivial.add(("ipread", shape) if as_kind == "list" else ("ipread", shape, as_kind))
         cases.append(case)
         outs.append(out)
         lines.append(f"cl.format {keys_str(req)} {J(data)}")
         ctx.dist["ipread"] += 1
+        if as_kind == "list":
+            done.append((req, data, shape))
+        else:
+            ctx.dist[f"ipread: requested characteristics handed in as a {as_kind}"] += 1
 
     # exhaustive status vectors for <= 3 items
     for n in (1, 2, 3):
@@ -232,6 +320,17 @@ def ip_read(ctx, driver, rng, loop):
         if rng.random() < 0.4:
             data["status"] = rng.choice(ALLCODES)
         one(req, data, ("rand", len(req), len(entries), "status" in data, "characteristics" in data))
+    # the same replies with the requested characteristics handed in as every other kind of iterable the annotation allows (no randomness: every k-th reply,
+    # request-wide statuses with partial / absent lists first)
+    base = list(done)
+    is_wide = [isinstance(x[1].get("status"), int) and not isinstance(x[1].get("status"), bool) and x[1].get("status") != 0 for x in base]
+    wide = [x for x, w in zip(base, is_wide) if w]
+    rest = [x for x, w in zip(base, is_wide) if not w]
+    n_wide, n_rest = ctx.budget(60, 1500), ctx.budget(30, 1500)
+    picked = wide[::max(1, len(wide) // n_wide)][:n_wide] + rest[::max(1, len(rest) // n_rest)][:n_rest]
+    for as_kind in ITER_KINDS[1:]:
+        for req, data, shape in picked:
+            one(req, data, shape, as_kind)
     ctx.sample({k: v for k, v in cases[37].items()})
     compare_with_model(ctx, "ipread", cases, outs, lines, driver)
 
@@ -239,7 +338,9 @@ def ip_read(ctx, driver, rng, loop):
 def ip_write(ctx, driver, rng, loop):
     cases, outs, lines = [], [], []
 
-    def one(layout, resp, shape):
+    done = []
+
+    def one(layout, resp, shape, as_kind="list"):
         req = sorted(layout)
         p = IpPairing.__new__(IpPairing)
         p._ensure_connected = _noop
@@ -253,8 +354,14 @@ def ip_write(ctx, driver, rng, loop):
         p.connection = Conn()
         ctx.evaluations += 1
         case = {"stream": "ipwrite", "layout": {f"{a}.{i}": v for (a, i), v in layout.items()}, "reply": resp}
+        if as_kind == "list":
+            done.append((layout, resp, shape))
+        else:
+            case["as"] = as_kind
+            shape = shape + (as_kind,)
+            ctx.dist[f"ipwrite: written characteristics handed in as a {as_kind}"] += 1
         try:
-            r = loop.run_until_complete(p.put_characteristics([(a, i, True) for a, i in req]))
+            r = loop.run_until_complete(p.put_characteristics(make_iterable(as_kind, [(a, i, True) for a, i in req])))
         except Exception as e:  # noqa: BLE001
             ctx.violation("ipwrite/" + type(e).__name__, f"put_characteristics raised {type(e).__name__} on reply {J(resp)[:200]}", case)
             return
@@ -354,6 +461,13 @@ def ip_write(ctx, driver, rng, loop):
         for _ in range(rng.choice([0, 0, 1, 2])):
             entries.insert(rng.randint(0, len(entries)), rng.choice([malformed(rng), {"aid": req[0][0], "iid": req[0][1]}]))
         one(layout, {"characteristics": entries}, ("rand", len(req), len(entries)))
+    # the same replies with the written characteristics handed in as every other kind of iterable the annotation allows (no randomness: every k-th reply)
+    base = list(done)
+    n_pick = ctx.budget(40, 1500)
+    picked = base[::max(1, len(base) // n_pick)][:n_pick]
+    for as_kind in ITER_KINDS[1:]:
+        for layout, resp, shape in picked:
+            one(layout, resp, shape, as_kind)
     ctx.sample(cases[55])
     compare_with_model(ctx, "ipwrite", cases, outs, lines, driver)
 
@@ -1102,6 +1216,21 @@ def wording_terms(op, log):
     return {"reports": why is None, "why": why, "code": http["code"], "shape": http["shape"]}
 
 
+# Entry points of the UNCHANGED library that walk the caller's iterable more than once or index it (read off the source, confirmed by running them):
+#   IpPairing.subscribe / unsubscribe: set(characteristics) first, then _update_subscriptions(characteristics) - a one-pass iterable is empty by then, nothing is sent
+#   CoAPPairing.get_characteristics -> read_characteristics: list(characteristics), then a second walk for the instance ids
+#   CoAPPairing.put_characteristics -> write_characteristics: walks ids_values twice and indexes it, the pairing walks it a third time
+#   CoAPPairing.unsubscribe -> unsubscribe_from: set(characteristics) first, then walks and indexes the argument
+# With an iterable that does not survive that (one-pass, or not indexable) the outcome is an observation outside this property's gating oracle: counted in the
+# distribution and noted in the evidence with a failing input, never a violation.  Every other (entry point, kind of iterable) is judged in full.
+# What is set aside there is exactly what was seen: the call FAILS (TypeError on indexing, or the accessory's answer to the empty batch the second walk produces) and,
+# having failed, tells no listener; every other clause (nothing invented, no refusal presented as done, values and statuses faithful) stays gating there too.
+# IpPairing.subscribe / unsubscribe with a one-pass iterable return {} without asking the accessory anything: no clause of the oracle is touched, they are judged
+# in full and the fact is counted ("accessory-never-asked").
+WALKED_TWICE = {("coap", "read"): ONE_PASS, ("coap", "write"): NOT_INDEXABLE, ("coap", "unsubscribe"): NOT_INDEXABLE}
+SET_ASIDE = ("read-raised", "write-raised", "unsubscribe-raised", "accepted-not-notified")
+OBSERVED = {}  # (transport, kind of operation, clause) -> {kind of iterable: first description}
+
 UNTOLD = {}  # (transport, kind of operation, body shape, clause, why it is not judged) -> status lines with which a refusal the reply does not tell was presented as done
 
 
@@ -1302,7 +1431,10 @@ async def _e2e_history(case, ctx=None, rows=None):
         if wire is not None:
             wire.op_http = op.get("http")
         del events[:]
-        seq = {"tuple": tuple, "set": set, "keys": lambda g: dict.fromkeys(g).keys()}.get(op.get("as"), list)
+        as_kind = op.get("as") or "list"
+
+        def seq(g):
+            return make_iterable(as_kind, g)
         r, raised = None, None
         try:
             if kind == "write":
@@ -1340,7 +1472,17 @@ async def _e2e_history(case, ctx=None, rows=None):
         except Exception as e:  # noqa: BLE001 - a result so malformed that it cannot even be inspected
             P = [(f"{t}-e2e/malformed-result", f"{t} {kind} of {[(i['aid'], i['iid']) for i in op['items']]}: the call returned {r!r} / listeners got {events!r}, which cannot be read as a "
                   f"result ({_fmt_exc(e)})")]
-        problems += [(sig, f"operation {n + 1} of the history: {what}", n) for sig, what in P]
+        if P and as_kind in WALKED_TWICE.get((t, kind), ()):
+            # an entry point of the UNCHANGED library that walks / indexes its argument more than once, called with an iterable that does not survive that:
+            # what it does then is recorded as an observation outside the gating oracle (see WALKED_TWICE)
+            for sig, what in P:
+                if sig.split("/", 1)[1] in SET_ASIDE and raised is not None:
+                    OBSERVED.setdefault((t, kind, sig.split("/", 1)[1]), {}).setdefault(as_kind, what)
+            P = [(sig, what) for sig, what in P if not (sig.split("/", 1)[1] in SET_ASIDE and raised is not None)]
+        if kind in ("subscribe", "unsubscribe") and as_kind in ONE_PASS and raised is None and not log:
+            OBSERVED.setdefault((t, kind, "accessory-never-asked"), {}).setdefault(
+                as_kind, f"{t} {kind}({[(i['aid'], i['iid']) for i in op['items']]}) returned {r!r} without sending the accessory any request")
+        problems += [(sig, f"operation {n + 1} of the history: {what}" + ("" if as_kind == "list" else f" [the characteristics were handed in as a {as_kind}]"), n) for sig, what in P]
     if t == "ip":
         p.connection.transport = None
         p.connection.protocol = None
@@ -1520,6 +1662,7 @@ def e2e_cases(ctx, rng):
         for _ in range(ctx.budget(250, 4000)):
             layout = gen_layout(rng, t)
             yield _case(t, layout, [gen_op(rng, t, layout, kinds) for _ in range(rng.randint(2, 6))], rng)
+    yield from iterable_cases(ctx, rng)
 
 
 def permission_mix_cases(ctx, rng, t):
@@ -1593,6 +1736,63 @@ def wording_cases(ctx, rng):
         yield case
 
 
+def iter_layout(t):
+    """fixed_layout plus (IP, CoAP) a second accessory behind the bridge"""
+    rows = [(51, "rw", "uint8", 4), (52, "rw", "bool", True), (53, "w", "int", 0), (54, "r", "float", 2.5)]
+    return fixed_layout(t) + ([] if t == "ble" else [{"aid": 2, "iid": i, "svc": 0, "perm": p, "fmt": f, "value": v} for i, p, f, v in rows])
+
+
+ITER_VECTORS = [(False,), (True,), (False, True), (True, False), (True, True), (False, False), (False, True, False), (True, False, True), (False, False, True, False)]
+
+
+def iterable_cases(ctx, rng):
+    """EVERY public read / write / subscribe / unsubscribe entry point of every transport called with EVERY kind of iterable its annotation allows (ITER_KINDS),
+    crossed with the reply shapes of the other streams: per-item statuses in each accessory style; IP: the status line x body shape wordings (request-wide status
+    with a partial / absent list, failures only, 200 / 204 / 207 / 4xx), one or two accessories, the set kinds putting the items in another order.  Each operation
+    on a fresh session; same oracles as everywhere else - the items are what the harness put into the iterable."""
+    for t in TRANSPORTS:
+        layout = iter_layout(t)
+        by = {c["iid"]: c for c in layout}
+        rpool = [c["iid"] for c in layout if "r" in c["perm"]]
+        wpool = [c["iid"] for c in layout if "w" in c["perm"]]
+
+        def items_of(kind, vec, same_err=None):
+            iids = rng.sample(wpool if kind == "write" else rpool, len(vec))
+            if kind == "write":
+                out = [gen_write_item(rng, t, by[i], rej) for i, rej in zip(iids, vec)]
+                if same_err is not None:
+                    out = [dict(it, st=same_err) if it["st"] else it for it in out]
+                return out
+            return [{"aid": by[i]["aid"], "iid": i, "st": (same_err if same_err is not None else rng.choice(errors_of(t))) if rej else 0} for i, rej in zip(iids, vec)]
+        kinds = ["read", "write"] + ([] if t == "ble" else ["subscribe", "unsubscribe"])
+        for kind in kinds:
+            for as_kind in ITER_KINDS:
+                vectors = ITER_VECTORS if ctx.thorough() else ITER_VECTORS[:2] + rng.sample(ITER_VECTORS[2:], ctx.budget(4, 7))
+                for vec in vectors:
+                    yield _case(t, layout, [{"op": kind, "items": items_of(kind, vec), "as": as_kind}], rng)
+                if t != "ip":
+                    continue
+                for shape in HTTP_SHAPES[kind]:
+                    # (a 204 status line makes every body honest - and tells nothing: those wordings are wording_cases' business, here only in the thorough tier)
+                    told = [v for v in ITER_VECTORS if any(v) and any(honest_wording(kind, c, shape, v) for c in HTTP_CODES if c != 204)]
+                    calm = [v for v in ITER_VECTORS if not any(v)]
+                    vectors = told + calm if ctx.thorough() else rng.sample(told, min(len(told), 2)) + rng.sample(calm, 1)
+                    for vec in vectors:
+                        codes = [c for c in HTTP_CODES if honest_wording(kind, c, shape, vec)]
+                        if not ctx.thorough():
+                            # one status line that says success / multi-status and one of the others, so that a refusal told by the body meets both
+                            mild = [c for c in codes if c in (200, 207)]
+                            other = [c for c in codes if c not in (200, 204, 207)] if any(vec) else [c for c in codes if c not in (200, 207)]
+                            codes = ([rng.choice(mild)] if mild else []) + ([rng.choice(other)] if other else [])
+                        for code in codes:
+                            err = rng.choice(HAP_ERRORS)
+                            op = {"op": kind, "items": items_of(kind, vec, err if shape in ("partial", "global") else None), "as": as_kind,
+                                  "http": {"code": code, "shape": shape, "cl0": rng.random() < 0.5}}
+                            case = _case("ip", layout, [op], rng)
+                            case["style"] = "spec"
+                            yield case
+
+
 def e2e_streams(ctx, driver, rng):
     cases, outs, lines = {"coapwrite-e2e": [], "blewrite-e2e": [], "ipwrite-e2e": [], "bleread-e2e": [], "ipwrite-http": []}, {}, {}
     for k in cases:
@@ -1626,6 +1826,11 @@ def e2e_streams(ctx, driver, rng):
                         where = "only" if n == 1 else ("first" if pos == 0 else ("last" if pos == n - 1 else "middle"))
                         ctx.dist[f"{t}-e2e write: rejected item is the {where} one"] += 1
             ctx.nontrivial.add((t + "-e2e", op["op"], vec, tuple(sorted({i.get("st", 0) for i in op["items"]}))))
+            if op.get("as") in ITER_KINDS[2:] and op["op"] != "identify":
+                ak = op["as"]
+                ctx.dist[f"{t}-e2e {op['op']}: characteristics handed in as a {ak}"
+                         + (" (the entry point walks / indexes its argument more than once: that it FAILS is observed, not judged)" if ak in WALKED_TWICE.get((t, op["op"]), ()) else "")] += 1
+                ctx.nontrivial.add((t + "-e2e-iterable", op["op"], ak, vec, (op.get("http") or {}).get("shape")))
             if op.get("http") is not None:
                 ctx.dist[f"ip-e2e reply status line {op['http']['code']} (varied independently of the body)"] += 1
                 ctx.dist[f"ip-e2e reply body shape {op['http']['shape']} ({'something' if any(vec) else 'nothing'} refused)"] += 1
@@ -1664,6 +1869,8 @@ def e2e_streams(ctx, driver, rng):
                 lines[k].append("cl.coapput " + " ".join(f"{i['aid']}.{i['iid']}:{'r' if 'r' in perms[i['iid']] else 'w'}:{rejected.get(i['iid'], 0)}" for i in items))
                 outs[k].append(f"{keys_str(notified)} | {keys_str(r)}")
             elif tt == "ble":
+                if op.get("as") in ("set", "frozenset"):
+                    continue  # the model of the BLE write path takes the items in the order they are walked; a set's order is not the harness's to know
                 lines[k].append("cl.bleput " + " ".join(f"{i['aid']}.{i['iid']}:{model_perm(perms[i['iid']])}:{1 if i['iid'] in accepted else 0}" for i in items))
                 local = []  # locally refused (not writable) before the first item the accessory rejected
                 for i in items:
@@ -1696,6 +1903,13 @@ def e2e_streams(ctx, driver, rng):
         ctx.notes.append(f"{t}: a {kind} the accessory refused, answered with status line {sorted(codes)} and body shape '{shape}', is presented as done by the library "
                          f"[{name}] - noted, not judged: {why}")
     UNTOLD.clear()
+    for (t, kind, name), per in sorted(OBSERVED.items()):
+        ak, what = sorted(per.items())[0]
+        ctx.dist[f"{t}-e2e {kind}: observation [{name}] with an iterable the entry point walks / indexes more than once"] += len(per)
+        ctx.notes.append(f"{t} {kind}() walks / indexes its argument more than once: with the characteristics handed in as a {' / '.join(sorted(per))} the outcome is [{name}] - "
+                         + ("no clause of the oracle is touched (nothing was refused, nothing is presented as done), counted only"
+                            if name == "accessory-never-asked" else "behaviour of the unchanged library, set aside from the gating oracle") + f"; e.g. ({ak}) {what[:400]}")
+    OBSERVED.clear()
     for k in cases:
         if cases[k]:
             compare_with_model(ctx, k, cases[k], outs[k], lines[k], driver, canon=(lambda x: ",".join(sorted(x.split(",")))) if k == "bleread-e2e" else (lambda x: x))
@@ -1722,7 +1936,7 @@ def replay(ctx, driver, c):
                     return copy.deepcopy(resp) if resp is not None else {}
             p.connection = Conn()
             try:
-                loop.run_until_complete(p.put_characteristics([(a, i, True) for a, i in req]))
+                loop.run_until_complete(p.put_characteristics(make_iterable(c.get("as", "list"), [(a, i, True) for a, i in req])))
             except Exception as e:  # noqa: BLE001
                 return f"raised {type(e).__name__}"
             notified = set()
@@ -1732,6 +1946,13 @@ def replay(ctx, driver, c):
             want = {k for k in req if "r" in layout[k] and k not in rejected}
             if notified != want:
                 return f"notified {sorted(notified)} != accepted readable {sorted(want)}"
+        elif c["stream"] == "ipread":
+            req = [tuple(k) for k in c["requested"]]
+            try:
+                r = ipread_call(loop, req, c["reply"], c.get("as", "list"))
+            except Exception as e:  # noqa: BLE001
+                return f"raised {type(e).__name__}"
+            return "; ".join(f"{sig}: {what}" for sig, what in ipread_problems(req, c["reply"], r)[:3]) or None
         return None
     finally:
         loop.close()
